@@ -194,6 +194,7 @@ class Engine(Interp):
         self.named_inputs = {}
         self.pending = []
         self.loops_exited = []
+        self.modules = {}   # module globals are per path (stubs installed by a harness are per path)
 
     def explore(self, harness, name):
         """Run `harness(eng)` once per feasible path."""
